@@ -18,6 +18,7 @@ pub fn opts() -> GenOpts {
     o.shell_completers = true;
     o.custom_help = true;
     o.pos_and_cmd = true;
+    o.cmd_or_words = true;
     o.catch = true;
     o.adjacent_cmds = true;
     o
